@@ -8,10 +8,19 @@
 //   db entries    <kind><epoch>,<payload id>     SetEpochDataRaw / StoreConfigData before the queries
 //   queries       <kind>,<epoch|n>,<header>      kind e = GetEpochDataRaw, c = GetConfigData,
 //                                                g = GetEpochForBlock; epoch n = GetEpochForBlock(header);
+//                 E,<skipped>.<current>,<header> GetSkippedEpochDataRaw(skipped, current, header)
+//                 C,<skipped>.<current>,<header> GetSkippedConfigData(skipped, current, header)
+//                                                (both re-key the definition of the skipped epoch to
+//                                                 the current epoch, in the database or in the map)
+//                 R,0,i0                         restart: the EpochState is re-created from its
+//                                                database (NewEpochState -> restoreMapFromDisk);
+//                                                the queries are executed in order on one state
 //                 header  i<block>               the header of an imported block
 //                         f<parent>.<slot>       a header that is NOT imported (child of <parent>)
 // observed: a=<ok|err> per announcement, ME=<epoch>:<blk>.<id>+...;... (nextEpochData), MC=... ,
 //   then per query  [<natural epoch>@]ok.<id> | err.epoch | err.hash | err.other | ep.<epoch>
+//   E / C queries: <result>/ME=<nextEpochData after the call> resp. <result>/MC=<nextConfigData ...>
+//   R: R/ME=<restored nextEpochData>/MC=<restored nextConfigData>
 //   (the whole case is `hang` when a lookup does not return: verifutil watchdog).
 //
 // Resource protection: on a tree where findAncestor does not terminate every hanging lookup
@@ -128,8 +137,19 @@ func c26Gen(r *vu.RNG, n int, emit func(string)) {
 		"tree 3 0,1;1,2;0,1 e3,5 - e,1,i3;e,1,i1;e,1,f2.3;e,1,f0.1;e,1,f3.2;g,n,i2",
 		"tree 2 0,1;1,3;2,5;0,2;4,4 c1,7;c4,8 - c,1,i3;c,2,i3;c,1,i5;c,n,i3;c,n,f3.7;c,3,i0",
 		"tree 2 0,1;1,3;2,5 e1,1;e2,2;e3,3;c1,4;c3,5 e2,9;c1,a e,1,i3;e,2,i3;e,3,i3;e,4,i3;c,1,i3;c,2,i3;c,3,i3;c,4,i3;e,0,i3;c,0,i3",
+		// restart with two forks announcing for the same epoch (seeded/C26-m2)
+		"tree 3 0,1;1,2;0,1;3,2 e1,5;e3,6;c1,7;c3,8 - R,0,i0;e,1,i2;e,1,i4;c,1,i2;c,1,i4;e,1,f2.3;e,1,f4.3",
 	} {
 		emit(s)
+	}
+	if !hangs {
+		for _, s := range []string{
+			// skipped epoch: data announced for epoch 1 used for epoch 2, in memory and in the database
+			"tree 3 0,1;1,2;0,1;3,2 e1,5;e3,6;c1,7 e1,9 E,1.2,i2;e,2,i2;e,1,i2;C,1.2,i2;c,2,i2;c,2,i4;C,1.3,i4",
+			"tree 3 0,1;1,2;0,1;3,2 e1,5;e3,6;c3,8 - E,1.2,i2;e,2,i2;e,2,i4;e,1,i4;E,1.2,i2;C,1.2,i2;C,1.2,f2.9;R,0,i0;e,2,i2;e,1,i2",
+		} {
+			emit(s)
+		}
 	}
 	for i := 0; i < n; i++ {
 		t := &c26Tree{elen: uint64([]int{2, 3, 5}[r.Intn(3)]), parent: []int{0}, slot: []uint64{0}, num: []int{0}}
@@ -231,6 +251,57 @@ func c26Gen(r *vu.RNG, n int, emit func(string)) {
 				add(kind, false, e, false, b, t.slot[b]+uint64(1+r.Intn(6)))
 			}
 		}
+		// second round: restart of the EpochState from its database, and skipped-epoch lookups
+		hs := func(imp bool, b int, sl uint64) string {
+			if imp {
+				return "i" + vu.X(uint64(b))
+			}
+			return fmt.Sprintf("f%s.%s", vu.X(uint64(b)), vu.X(sl))
+		}
+		if r.Chance(1, 3) {
+			switch r.Intn(4) {
+			case 0: // in the middle
+				at := r.Intn(len(qs) + 1)
+				qs = append(qs[:at], append([]string{"R,0,i0"}, qs[at:]...)...)
+			default: // before every query
+				qs = append([]string{"R,0,i0"}, qs...)
+			}
+		}
+		if !hangs && r.Chance(1, 3) {
+			nsk := 1 + r.Intn(3)
+			for j := 0; j < nsk; j++ {
+				b := r.Intn(nb + 1)
+				imp := r.Chance(2, 3)
+				sl := t.slot[b] + uint64(1+r.Intn(6))
+				eb := t.epochImp(b)
+				if !imp {
+					eb = t.epochFresh(b, sl)
+				}
+				se := eb + 1
+				if r.Chance(1, 4) {
+					se = uint64(r.Intn(4))
+				}
+				ce := se + 1 + uint64(r.Intn(2))
+				if r.Chance(1, 8) {
+					ce = se
+				}
+				kind := "EC"[r.Intn(2)]
+				qs = append(qs, fmt.Sprintf("%c,%s.%s,%s", kind, vu.X(se), vu.X(ce), hs(imp, b, sl)))
+				if r.Chance(1, 2) { // the same lookup again: the definition has moved
+					qs = append(qs, fmt.Sprintf("%c,%s.%s,%s", kind, vu.X(se), vu.X(ce), hs(imp, b, sl)))
+				}
+				lk := byte('e')
+				if kind == 'C' {
+					lk = 'c'
+				}
+				qs = append(qs, fmt.Sprintf("%c,%s,%s", lk, vu.X(ce), hs(imp, b, sl)), fmt.Sprintf("%c,%s,%s", lk, vu.X(se), hs(imp, b, sl)))
+				o := r.Intn(nb + 1)
+				qs = append(qs, fmt.Sprintf("%c,%s,i%s", lk, vu.X(ce), vu.X(uint64(o))), fmt.Sprintf("%c,%s,i%s", lk, vu.X(se), vu.X(uint64(o))))
+				if r.Chance(1, 4) {
+					qs = append(qs, "R,0,i0", fmt.Sprintf("%c,%s,%s", lk, vu.X(ce), hs(imp, b, sl)), fmt.Sprintf("%c,%s,%s", lk, vu.X(se), hs(imp, b, sl)))
+				}
+			}
+		}
 		var bl, al []string
 		for k := 1; k <= nb; k++ {
 			bl = append(bl, fmt.Sprintf("%s,%s", vu.X(uint64(t.parent[k])), vu.X(t.slot[k])))
@@ -284,9 +355,10 @@ func c26Run(in string) string {
 	}
 	var rnd [32]byte
 	rnd[0] = 0xee
-	es, err := NewEpochStateFromGenesis(db, bs, &types.BabeConfiguration{
+	c26cfg := &types.BabeConfiguration{
 		SlotDuration: 1000, EpochLength: elen, C1: 0xee, C2: 1000,
-		GenesisAuthorities: []types.AuthorityRaw{}, Randomness: rnd, SecondarySlots: 1})
+		GenesisAuthorities: []types.AuthorityRaw{}, Randomness: rnd, SecondarySlots: 1}
+	es, err := NewEpochStateFromGenesis(db, bs, c26cfg)
 	if err != nil {
 		return "err:epochstate"
 	}
@@ -430,6 +502,45 @@ func c26Run(in string) string {
 				return "err:badquery"
 			}
 			h = c26Header(headers[i].Hash(), headers[i].Number+1, vu.UnX(ps[1]), 0xffff)
+		}
+		if p[0] == "R" {
+			es2, err := NewEpochState(db, bs, c26cfg)
+			if err != nil {
+				out = append(out, "R/err")
+				continue
+			}
+			es = es2
+			out = append(out, "R/ME="+dumpE()+"/MC="+dumpC())
+			continue
+		}
+		if p[0] == "E" || p[0] == "C" {
+			sc := strings.Split(p[1], ".")
+			if len(sc) != 2 {
+				return "err:badquery"
+			}
+			se, ce := vu.UnX(sc[0]), vu.UnX(sc[1])
+			if p[0] == "E" {
+				d, err := es.GetSkippedEpochDataRaw(se, ce, h)
+				switch {
+				case err != nil:
+					out = append(out, c26Err(err)+"/ME="+dumpE())
+				case d == nil:
+					out = append(out, "err.nil/ME="+dumpE())
+				default:
+					out = append(out, "ok."+vu.X(uint64(d.Randomness[0]))+"/ME="+dumpE())
+				}
+			} else {
+				d, err := es.GetSkippedConfigData(se, ce, h)
+				switch {
+				case err != nil:
+					out = append(out, c26Err(err)+"/MC="+dumpC())
+				case d == nil:
+					out = append(out, "err.nil/MC="+dumpC())
+				default:
+					out = append(out, "ok."+vu.X(d.C1)+"/MC="+dumpC())
+				}
+			}
+			continue
 		}
 		pre := ""
 		var e uint64
